@@ -18,7 +18,7 @@ RULE = ("accepted filters from the full-grammar generator (depth <= 3) and from 
         "after replacing literal spellings by their values; per backend the outcome is the same: SQLite text "
         "selects the same rows, standard/Athena text equal up to letter case, Django sql_with_params and "
         "SQLAlchemy compiled SQL + parameters equal, round-trip output re-parses to the same term; or the same "
-        "exception class. Exhaustive: each keyword x 4 case patterns in isolation. Non-trivial: the variant "
+        "exception class. Date-time literals are written with Z, with an offset and without a zone. Exhaustive: each keyword x 4 case patterns in isolation; every date-time zone form x every case assignment to T and Z x 5 shapes, executed on all engines. Non-trivial: the variant "
         "differs from the canonical text in >= 1 keyword's case and >= 1 blank; distinct by variant text.")
 ASSUMPTIONS = ["leading/trailing blanks of the whole filter and blanks around '=' of named parameters are not in the property's list",
                "standard and Athena SQL are not executed: texts are compared case-insensitively only"]
